@@ -710,6 +710,119 @@ def check_pairs(chk, tier):
                 chk.fail(("pair", "setConstellation_table_not_followed", fn), dict(case, fn=fn))
 
 
+# ----------------------------------------------------------------------
+# every scalar argument in every scalar TYPE gives the value of the equal-valued Python number
+# ----------------------------------------------------------------------
+def packet_length_forms(L):
+    out = [("np.int64", np.int64(L)), ("np.int32", np.int32(L)), ("np.intp", np.intp(L)),
+           ("np.uint16", np.uint16(L)), ("np.uint32", np.uint32(L)), ("np.uint64", np.uint64(L)),
+           ("array_element", np.array([3, L, 7])[1]), ("0d_int_array", np.array(L)),
+           ("pyfloat", float(L)), ("np.float64", np.float64(L))]
+    if L <= 32767:
+        out.append(("np.int16", np.int16(L)))
+    if L <= 255:
+        out.append(("np.uint8", np.uint8(L)))
+    if L <= 127:
+        out.append(("np.int8", np.int8(L)))
+    return out
+
+
+def snr_scalar_forms(v):
+    """(name, class, object) for one dB value; integer types only for integer values"""
+    out = [("pyfloat", "float64", float(v)), ("np.float64", "float64", np.float64(v)),
+           ("0d_float_array", "0d_or_1_element_array", np.array(float(v))),
+           ("1_element_array", "0d_or_1_element_array", np.array([float(v)])),
+           ("1x1_array", "0d_or_1_element_array", np.array([[float(v)]])),
+           ("np.float32", "float32", np.float32(v))]
+    if float(v).is_integer():
+        iv = int(v)
+        out += [("pyint", "integer", iv), ("np.int64", "integer", np.int64(iv)), ("np.int32", "integer", np.int32(iv)),
+                ("np.int8", "integer", np.int8(iv)), ("0d_int_array", "0d_or_1_element_array", np.array(iv)),
+                ("1_element_int_array", "0d_or_1_element_array", np.array([iv]))]
+        if iv >= 0:
+            out.append(("np.uint8", "integer", np.uint8(iv)))
+    return out
+
+
+def check_scalar_forms(chk, lab, m, geo, spec):
+    """PER / SE (base-class implementations, reached through this object) with the packet length in every
+    scalar type; SER / BER / PER / SE with a scalar SNR in every scalar type.  Reference: the same object
+    called with the equal-valued Python int (packet length) / Python float (SNR)."""
+    base = lab.split("_")[0]
+    K = math.log2(geo["M"])
+    dmin = geo["dmin"]
+    vec = np.array([-10.0, 0.0, 7.5, 20.0])
+    for L in (1, 2, 50, 120, 1000):
+        for snr_name, snr in (("array", vec), ("scalar", 7.5)):
+            want_per = np.asarray(m.calcTheoreticalPER(snr, L), dtype=float)
+            want_se = np.asarray(m.calcTheoreticalSpectralEfficiency(snr, L), dtype=float)
+            for name, Lf in packet_length_forms(L):
+                chk.count("eval_scalar_form_calls", 2)
+                chk.outcome("packet_length_form", name)
+                case = dict(spec, what="scalar_form", argument="packet_length", form=name, packet_length=L, snr=snr_name)
+                for fn, want, scale in (("PER", want_per, 1.0), ("SE", want_se, K)):
+                    got = call_rate(m, fn, snr, Lf)
+                    g = np.asarray(got, dtype=float)
+                    if g.shape != want.shape or not np.all(np.abs(g - want) <= 4 * L * EPS * scale + PROB_FLOOR):
+                        i = bad_index(~(np.abs(g - want) <= 4 * L * EPS * scale + PROB_FLOOR)) if g.shape == want.shape else None
+                        chk.fail(("scalar_form", "packet_length", fn), dict(case, fn=fn, position=i),
+                                 observed=g.ravel()[:4] if i is None else float(g.ravel()[i]),
+                                 expected=want.ravel()[:4] if i is None else float(want.ravel()[i]),
+                                 msg="packet length given as %s instead of the equal Python int" % name)
+    Lp = 50
+    for v in (-10, 0, 7, 20, 7.5, -2.25):
+        x = dmin * math.sqrt(float(lin(float(v))) / 2.0)
+        kappa = max(1.0, x * x) * max(1.0, 1.0 / dmin)
+        ref = {fn: float(call_rate(m, fn, float(v), Lp)) for fn in RATE_FNS}
+        for name, cls, obj in snr_scalar_forms(v):
+            chk.outcome("snr_scalar_form", name)
+            for fn in RATE_FNS:
+                got = call_rate(m, fn, obj, Lp)
+                chk.count("eval_scalar_form_calls")
+                g = np.asarray(got, dtype=float)
+                amp = float(Lp) if fn in ("PER", "SE") else 1.0
+                scale = K if fn in ("SE", "SE0") else max(abs(ref[fn]), float(np.max(np.abs(g))) if g.size else 0.0)
+                if cls == "float32":
+                    tol = 64 * 2.0 ** -23 * kappa * scale * amp + 8 * 2.0 ** -23 * amp
+                else:
+                    tol = C_REL * EPS * kappa * scale * amp + PROB_FLOOR * amp
+                if g.shape != np.shape(obj) or not np.all(np.abs(g - ref[fn]) <= tol):
+                    chk.fail(("scalar_form", "snr", cls, fn),
+                             dict(spec, what="scalar_form", argument="snr", form=name, snr_db=float(v), fn=fn),
+                             observed=got, expected=ref[fn],
+                             msg="SNR given as %s instead of the equal Python float" % name)
+
+
+def check_numpy_int_cardinality(chk):
+    """M at construction as numpy integers: the object must be the one built from the Python int"""
+    from pyphysim.modulators import fundamental as F
+    vec = np.array([-10.0, 0.0, 7.5, 20.0])
+    for clsname, Ms in (("PSK", (2, 8, 64, 1024)), ("QAM", (4, 16, 256, 4096))):
+        cls = getattr(F, clsname)
+        for M in Ms:
+            ref = cls(M)
+            for dt in ("int64", "int32", "int16", "uint16", "uint32", "uint64", "intp", "uint8", "int8"):
+                if M > np.iinfo(dt).max:
+                    continue
+                case = {"kind": "cardinality_form", "cls": clsname, "M": M, "dtype": dt}
+                chk.count("eval_scalar_form_calls")
+                with chk.guard(("scalar_form", "M_at_construction", clsname), case):
+                    try:
+                        m = cls(np.dtype(dt).type(M))
+                    except Exception as e:  # noqa   (construction is C01's business: free here, recorded)
+                        chk.outcome("invalid_call", ("%s(%s)" % (clsname, dt), "raised:" + type(e).__name__, "-"))
+                        continue
+                    chk.outcome("cardinality_form", (clsname, dt))
+                    if public_state(m) != public_state(ref):
+                        chk.fail(("scalar_form", "M_at_construction", clsname, "different_object"), case,
+                                 observed=public_state(m)[:5], expected=public_state(ref)[:5])
+                        continue
+                    for fn in RATE_FNS:
+                        for snr in (vec, 7.5):
+                            if not same_bits(call_rate(m, fn, snr, 50), call_rate(ref, fn, snr, 50)):
+                                chk.fail(("scalar_form", "M_at_construction", clsname, fn), dict(case, fn=fn))
+
+
 def check_object(chk, spec, tier):
     kind, M, hist = spec["kind"], spec["M"], spec["history"]
     lab = kind_label(kind, hist)
@@ -748,6 +861,8 @@ def check_object(chk, spec, tier):
             check_scalars(chk, lab, m, geo, grid[sel], Ls, spec, sub)
         with chk.guard(("call_sequence", base), dict(spec, what="call_sequence")):
             check_call_sequences(chk, lab, kind, M, hist, spec, tier)
+        with chk.guard(("scalar_form", base), dict(spec, what="scalar_form")):
+            check_scalar_forms(chk, lab, m, geo, spec)
         with chk.guard(("error_path", base), dict(spec, what="error_path")):
             check_error_paths_and_falsy(chk, lab, kind, M, hist, spec)
         with chk.guard(("snr_presentation", base), dict(spec, what="snr_presentation")):
@@ -876,6 +991,11 @@ def main(chk: Check):
     chk.assume("pairs: 10 pairs of live objects (PSK/QAM of the same order, two PSKs, BPSK+QPSK, QPSK vs "
                "PSK(4,pi/4), ...) in both construction orders share one SNR buffer rewritten between rounds; "
                "every order of 4 calls x 3 function pairs, 6 calls deep, against the object's own lone results")
+    chk.assume("scalar forms: packet lengths 1,2,50,120,1000 as np.int8..uint64/intp scalars, array element, 0-d "
+               "array, Python float and np.float64 must give PER and SE of the equal Python int (4*L*2^-52 abs); "
+               "scalar SNRs as Python int/float, np.float64/float32, np.int8..int64/uint8, 0-d, 1-element and 1x1 "
+               "arrays must give the value of the equal Python float (float32 at single-precision tolerance); "
+               "PSK/QAM built from numpy-integer M must be the object built from the Python int")
     chk.assume("scalar SNR arguments are compared with the array result of the same SNR (quick tier: every "
                "4th grid point for M > 16)")
 
@@ -887,6 +1007,8 @@ def main(chk: Check):
             check_primitives(c, c.tier)
         if i == n - 1:
             check_pairs(c, c.tier)
+        if i == n // 2:
+            check_numpy_int_cardinality(c)
 
     run_shards(chk, worker)
     chk.sample({"kind": "psk", "M": 8, "history": [["new", 0.0], ["set", 1.0]]})
@@ -895,6 +1017,9 @@ def main(chk: Check):
     chk.require_outcomes("snr_presentation", 12)
     chk.require_outcomes("sequence_rounds", 3)
     chk.require_outcomes("pairs", 20)
+    chk.require_outcomes("packet_length_form", 10)
+    chk.require_outcomes("snr_scalar_form", 12)
+    chk.require_outcomes("cardinality_form", 8)
     chk.require_outcomes("error_paths", 3)
     if chk.counters.get("nontrivial_rate_points", 0) < 1000:
         raise Broken("vacuous: only %d SNR points with a SER inside (1e-12, 0.999)"
@@ -902,6 +1027,9 @@ def main(chk: Check):
 
 
 def replay(case, chk: Check):
+    if case.get("kind") == "cardinality_form":
+        check_numpy_int_cardinality(chk)
+        return
     if case.get("kind") == "pair" or "pair" in case or "via" in case:
         check_pairs(chk, chk.tier)
         return
